@@ -861,9 +861,10 @@ static int _parse_inline(qaconf_t *qaconf, FILE *fp, uint8_t flags,
                             }
                         } else if (argtype == 3) {
                             // bool type
-                            if (_is_str_bool(cbdata->argv[j]) != 0) {
-                                // Change argument to "1".
-                                strcpy(cbdata->argv[j], "1");
+                            int boolval = _is_str_bool(cbdata->argv[j]);
+                            if (boolval >= 0) {
+                                // Change argument to "1" or "0".
+                                strcpy(cbdata->argv[j], (boolval > 0) ? "1" : "0");
                             } else {
                                 EXITLOOP(
                                         "%dth argument of '%s' must be bool type.",
@@ -1022,6 +1023,7 @@ static int _is_str_number(const char *s) {
 }
 
 static int _is_str_bool(const char *s) {
+    // returns 1 for true words, 0 for false words, -1 if not a bool.
     if (!strcasecmp(s, "true"))
         return 1;
     else if (!strcasecmp(s, "on"))
@@ -1030,7 +1032,15 @@ static int _is_str_bool(const char *s) {
         return 1;
     else if (!strcasecmp(s, "1"))
         return 1;
-    return 0;
+    else if (!strcasecmp(s, "false"))
+        return 0;
+    else if (!strcasecmp(s, "off"))
+        return 0;
+    else if (!strcasecmp(s, "no"))
+        return 0;
+    else if (!strcasecmp(s, "0"))
+        return 0;
+    return -1;
 }
 
 #endif /* _DOXYGEN_SKIP */
